@@ -146,7 +146,9 @@ func foreignRefsDoc(withNumbering bool) []byte {
 	return zb.Bytes()
 }
 
-var customPool = []string{"Cust0", "Cust1", "Cust2", "Cust3"}
+// customPool: ids of custom styles; besides plain ones, ids that are a beginning or an extension of an id that the
+// library or the foreign package defines, and ids with characters that need escaping in an attribute
+var customPool = []string{"Cust0", "Cust1", "Cust2", "Cust3", "Cust", "Cust00", "Code", "Heading", "Heading10", "FStyle", "FStyle12", "Sub", "TOC", "Norma", "a\"b<c>&d", "é 中"}
 
 func runRefsCase(r *rng) (coq string, ops []refOp, fails []OracleFailure, nOK int) {
 	w := &refWorld{atoms: map[string]int{}, used: map[string]bool{}, apiStyles: map[string]bool{}}
